@@ -120,6 +120,24 @@ def seqH (args : List String) : Option String := do
     some (sOutcome (acceptSeq v b { ham := h, dim := d, opDims := ops, nAtoms := na, nGood := ng } s cn))
   | _ => none
 
+def pRebuild : String → Option Rebuild
+  | "passes" => some .passesType | "default" => some .defaultRydberg | _ => none
+
+def sRun : RunOutcome → String
+  | .emulate ks => "emulate " ++ ">".intercalate (ks.map sHamKind)
+  | .raise e => s!"raise {sErr e}"
+
+/-- `config.run rebuild variant backend ham dim opDims nAtoms nGood solver cfgNoise changes` →
+`emulate k1>k2…` (consecutive duplicates removed) | `raise e`. -/
+def runH (args : List String) : Option String := do
+  match args with
+  | [rb, v, b, h, d, ops, na, ng, s, cn, ch] =>
+    let rb ← pRebuild rb; let v ← pVariant v; let b ← pBackend b; let h ← pHam h; let d ← pNat d
+    let ops ← parseList pNat ops; let na ← pNat na; let ng ← pNat ng
+    let s ← pSolver s; let cn ← parseB cn; let ch ← parseList parseB ch
+    some (sRun (collapseRun (acceptRun rb v b { ham := h, dim := d, opDims := ops, nAtoms := na, nGood := ng } s cn ch)))
+  | _ => none
+
 /-- `config.impl variant solver nOps cfgNoise nAtoms` → `ok plain|noisy|dmrg` | `raise e`. -/
 def implH (args : List String) : Option String := do
   match args with
@@ -157,7 +175,7 @@ def sequenceH (args : List String) : Option String := do
 
 def handlers : List (String × (List String → Option String)) :=
   [("config.floor", floorF), ("config.mk", mkF), ("config.lind", lindH), ("config.detect", detectH),
-   ("config.extract", extractH), ("config.basis", basisH), ("config.seq", seqH),
+   ("config.extract", extractH), ("config.basis", basisH), ("config.seq", seqH), ("config.run", runH),
    ("config.impl", implH), ("config.accept", acceptH), ("config.acceptdev", acceptDevH),
    ("config.sequence", sequenceH)]
 
